@@ -1,6 +1,86 @@
 import NpsVerif.Model.Reduce
+import NpsVerif.Proofs.ReduceAt
+/-!
+# Property C05 — row reductions (`ufunc.reduceat`, trailing empty rows, identity patch-up)
+
+All theorems quantify over every list of rows (any placement of empty rows: first, last,
+consecutive, all rows empty, zero rows), every element / result type and every reduction `red`.
+Helper lemmas live in `NpsVerif/Proofs/ReduceAt.lean`.
+-/
 namespace Props.C05
 open Model
-/-- sanity instance; the universally quantified theorems are added as they are proved -/
+variable {α β : Type}
+
+/-- sanity instance -/
 theorem reduce_example : reduceRows List.sum (some 0) 0 (RA.ofRows [[], [1, 2], [], [3], [], []]) = some [0, 3, 0, 3, 0, 0] := by decide
+
+/-- reductions without an identity (max / min): one entry per row, right for every non-empty row -/
+theorem C05_reduce_no_identity (red : List α → β) (pad : β) (rows : List (List α)) :
+    ∃ r, reduceRows red none pad (RA.ofRows rows) = some r ∧ r.length = rows.length ∧
+      ∀ (i : Nat) (row : List α), rows[i]? = some row → row ≠ [] → r[i]? = some (red row) := by
+  obtain ⟨rows', m, rfl, hlast⟩ := rows_split rows
+  obtain ⟨r', hlen, hspec, heq⟩ := reduceRows_none_split red pad rows' m hlast
+  refine ⟨_, heq, by simp [hlen], ?_⟩
+  intro i row hi hne
+  by_cases hlt : i < rows'.length
+  · rw [List.getElem?_append_left hlt] at hi
+    rw [List.getElem?_append_left (by omega)]
+    exact hspec i row hi hne
+  · rw [List.getElem?_append_right (by omega)] at hi
+    have := List.mem_of_getElem? hi
+    exact absurd (List.eq_of_mem_replicate this) hne
+
+/-- reductions with an identity: every row gets `red row`, empty rows the identity, wherever they are
+(first, last, consecutive, all rows empty, zero rows) -/
+theorem C05_reduce_identity (red : List α → β) (pad : β) (rows : List (List α)) :
+    reduceRows red (some (red [])) pad (RA.ofRows rows) = some (rows.map red) := by
+  obtain ⟨r, heq, hlen, hspec⟩ := C05_reduce_no_identity red (red []) rows
+  rw [reduceRows_some, heq]
+  simp only [Option.map_some, Option.some.injEq, RA.ofRows, ofLens_lengths]
+  apply List.ext_getElem?
+  intro i
+  by_cases hi : i < rows.length
+  · have hr : r[i]? = some r[i] := List.getElem?_eq_getElem (by omega)
+    have hrow : rows[i]? = some rows[i] := List.getElem?_eq_getElem hi
+    have hz : (r.zip (rows.map List.length))[i]? = some (r[i], rows[i].length) := by
+      rw [List.getElem?_zip_eq_some]
+      exact ⟨hr, by simp [hrow]⟩
+    simp only [List.getElem?_map, hz, hrow, Option.map_some, Option.some.injEq]
+    by_cases hne : rows[i] = []
+    · simp [hne]
+    · have h1 := hspec i rows[i] hrow hne
+      rw [hr] at h1
+      have hpos : rows[i].length ≠ 0 := by
+        have := List.length_pos_iff.mpr hne; omega
+      simp only [hpos, if_false]
+      exact Option.some.inj h1
+  · rw [List.getElem?_eq_none (by simp; omega), List.getElem?_eq_none (by simp; omega)]
+
+/-- `reduceat` on the starts of a contiguous shape whose last row is non-empty -/
+theorem C05_reduceat (red : List α → β) (rows : List (List α)) (hlast : ∀ (r : List α), rows.getLast? = some r → r ≠ []) :
+    ∃ r, reduceat red rows.flatten (Shape.ofLens (rows.map List.length)).starts = some r ∧
+      r.length = rows.length ∧ ∀ (i : Nat) (row : List α), rows[i]? = some row → row ≠ [] → r[i]? = some (red row) := by
+  rw [ofLens_starts]
+  exact reduceat_starts_spec red rows hlast
+
+/-! ## non-vacuity: concrete instances (`red := List.sum` over `Nat`, and a max without identity) -/
+
+/- leading, interior and several trailing empty rows -/
+example : reduceRows List.sum (some 0) 7 (RA.ofRows [[], [1, 2], [], [3], [], []]) = some [0, 3, 0, 3, 0, 0] := by decide
+/- the trimmed `reduceat` call of that run: indices `starts[:4]`, empty rows give a single element -/
+example : reduceat List.sum [1, 2, 3] [0, 0, 2, 2] = some [1, 3, 3, 3] := by decide
+example : Np.searchsortedLeftNat (Shape.ofLens [0, 2, 0, 1, 0, 0]).starts 3 = 4 := by decide
+/- an untrimmed start equal to the size is an IndexError -/
+example : reduceat List.sum [1, 2, 3] [0, 0, 2, 2, 3, 3] = none := by decide
+/- all rows empty; zero rows -/
+example : reduceRows List.sum (some 0) 7 (RA.ofRows [([] : List Nat), [], []]) = some [0, 0, 0] := by decide
+example : reduceRows List.sum (some 0) 7 (RA.ofRows ([] : List (List Nat))) = some [] := by decide
+/- last row non-empty: plain `reduceat` on all starts -/
+example : reduceRows List.sum (some 0) 7 (RA.ofRows [[], [1, 2], [], [], [3, 4, 5]]) = some [0, 3, 0, 0, 12] := by decide
+example : reduceat List.sum [1, 2, 3] (Shape.ofLens [0, 2, 0, 1]).starts = some [1, 3, 3, 3] := by decide
+/- a reduction without identity (maximum): non-empty rows right, empty rows unspecified / padded -/
+example : reduceRows (List.foldl max 0) none 9 (RA.ofRows [[], [1, 5, 2], [], [3], [], []]) = some [1, 5, 3, 3, 9, 9] := by decide
+example : reduceRows (List.foldl max 0) none 9 (RA.ofRows [([] : List Nat), []]) = some [9, 9] := by decide
+example : reduceRows (List.foldl max 0) none 9 (RA.ofRows [[4, 1], [], [2, 7]]) = some [4, 2, 7] := by decide
+
 end Props.C05
